@@ -389,8 +389,9 @@ func c07judge(p C07Params, s *c07state, submitEnd int) {
 	// limit, or the beginning task's own maximum delay has expired (it is then run directly by the schedule handler)
 	if p.Serial {
 		type run struct {
-			task  int
-			begin time.Duration
+			task    int
+			begin   time.Duration
+			overdue bool // started when its own maximum delay had passed: run directly by the schedule handler, it does not occupy the queue
 		}
 		var running []run
 		for _, e := range s.log {
@@ -410,13 +411,17 @@ func c07judge(p C07Params, s *c07state, submitEnd int) {
 					}
 				}
 				md := s.maxDelay[e.task]
+				overdue := sub >= 0 && md != 0 && e.now >= sub+md
 				for _, r := range running {
-					if e.now-r.begin < maxExecutionWait && (sub < 0 || md == 0 || e.now < sub+md) {
+					if r.overdue {
+						continue // that one was started outside the queue; the queue itself was free
+					}
+					if e.now-r.begin < maxExecutionWait && !overdue {
 						verifFail("queue-order", "concurrent-start", "task %d began at %s while task %d (begun at %s) was still running, before the execution-wait limit (%s) and before its own maximum delay (%s after %s) had passed\nlog: %s",
 							e.task, e.now, r.task, r.begin, maxExecutionWait, md, sub, c07fmt(s.log))
 					}
 				}
-				running = append(running, run{e.task, e.now})
+				running = append(running, run{e.task, e.now, overdue})
 			case "end":
 				for i, r := range running {
 					if r.task == e.task {
